@@ -465,7 +465,27 @@ func ruleR11e(c *Check) {
 		return
 	}
 	n := 0
-	for _, s := range engine.SitesIn(det) {
+	// the detector and the function literals it defines (a pair enumerator written as a closure, say)
+	var detSites []ssa.CallInstruction
+	for _, f := range c.P.Funcs {
+		if f == det || engine.TopFunc(f) == det {
+			detSites = append(detSites, engine.SitesIn(f)...)
+		}
+	}
+	sort.Slice(detSites, func(i, j int) bool { return detSites[i].Pos() < detSites[j].Pos() })
+	// loops around a site, continued through the single call site of the enclosing literal
+	var effectiveLoops func(at ssa.Instruction, depth int) []*engine.Loop
+	effectiveLoops = func(at ssa.Instruction, depth int) []*engine.Loop {
+		loops := engine.LoopsContaining(at)
+		fn := at.Parent()
+		if depth < 3 && fn != det {
+			if callers := c.G.CallersOf(fn); len(callers) == 1 {
+				loops = append(loops, effectiveLoops(callers[0], depth+1)...)
+			}
+		}
+		return loops
+	}
+	for _, s := range detSites {
 		isPred := false
 		for _, f := range c.G.Callees[s] {
 			if engine.InPackage(f, "analysis") && f.Signature.Results().Len() == 1 && f.Signature.Results().At(0).Type().String() == "bool" && f.Signature.Params().Len() >= 2 {
@@ -476,12 +496,12 @@ func ruleR11e(c *Check) {
 			continue
 		}
 		n++
-		loops := engine.LoopsContaining(s)
+		loops := effectiveLoops(s, 0)
 		ok := false
 		why := fmt.Sprintf("nested in %d loop(s)", len(loops))
 		if len(loops) >= 2 {
 			inner, outer := loops[0], loops[1]
-			if inner.IsFullRange() && outer.IsFullRange() {
+			if inner.IsFullRange() && outer.IsFullRange() && rangesWholeOrTail(inner, outer) {
 				ok = true
 			} else if triangular(inner, outer) {
 				ok = true
@@ -494,6 +514,37 @@ func ruleR11e(c *Check) {
 	if n == 0 {
 		c.Bad("R11e", "all-pairs", "the conflict detector evaluates no pairwise predicate", c.P.Pos(det.Pos()))
 	}
+}
+
+// rangesWholeOrTail: the inner full range is over a whole collection, or over S[i+1:] where the outer
+// loop ranges over the same S with index i (each unordered pair once).
+func rangesWholeOrTail(inner, outer *engine.Loop) bool {
+	sl, ok := inner.RangedValue().(*ssa.Slice)
+	if !ok {
+		return true
+	}
+	if sl.High != nil || sl.Max != nil {
+		return false
+	}
+	if sl.Low == nil {
+		return true
+	}
+	add, ok := sl.Low.(*ssa.BinOp)
+	if !ok || add.Op != token.ADD {
+		return false
+	}
+	if k, ok := add.Y.(*ssa.Const); !ok || k.Int64() != 1 {
+		return false
+	}
+	// add.X is the outer loop's index: a phi of the outer header (or derived from its range iterator)
+	idxOK := false
+	for _, o := range engine.Origins(add.X) {
+		if in, ok := o.(ssa.Instruction); ok && in.Block() != nil && outer.Body[in.Block()] {
+			idxOK = true
+		}
+	}
+	outerColl := outer.RangedValue()
+	return idxOK && outerColl != nil && (sameSlice(outerColl, sl.X) || engine.ExprKey(outerColl) == engine.ExprKey(sl.X))
 }
 
 // triangular: for i := 0; i < len(S); i++ { for j := i+1; j < len(S); j++ {...} }
